@@ -12,7 +12,8 @@ ASSUMPTIONS = ["(A5) the scoring model answers in [0,1] (checked on every scored
 TRUSTED = ["numpy/xgboost scoring as an oracle; Python's float formatting for the threshold message"]
 
 
-def run(ctx):
+def threshold_runs(ctx):
+    """shared with C18: the MCS-stage corpus reactions at thresholds {0, 0.5, 1, observed confidences and their float neighbours}"""
     from rdkit import RDLogger
     RDLogger.DisableLog("rdApp.*")
     base = pipe.corpus_run(ctx)
@@ -39,8 +40,8 @@ def run(ctx):
     for c in chosen:
         ths += [c, math.nextafter(c, 0.0), math.nextafter(c, 1.0)]
     ths = sorted(set(ths))
-    ctx.count("T", "thresholds", len(ths))
-    ctx.count("T", "mcs_reactions", len(pick))
+    ctx.streams.setdefault("T", {})["thresholds"] = len(ths)
+    ctx.streams.setdefault("T", {})["mcs_reactions"] = len(pick)
     name = "c13_%s_%d" % (ctx.tier, ctx.seed)
 
     def compute():
@@ -52,6 +53,11 @@ def run(ctx):
             res = pool.starmap(pipe.run_batch, jobs, chunksize=1)
         return [{"t": t, "batch": r} for (b, t), r in zip(jobs, res)]
     runs, hit = pipe.cached(name, compute)
+    return runs, ths, inputs
+
+
+def run(ctx):
+    runs, ths, inputs = threshold_runs(ctx)
     by_t = {}
     for x in runs:
         by_t.setdefault(x["t"], []).append(x["batch"])
